@@ -499,7 +499,12 @@ func (cfg *Config) varInd(vr Variable, idx syntax.ArithmExpr) (string, bool, err
 			}
 			return strings.Join(strs, " "), vr.IsSet(), nil
 		}
-		val, err := Literal(cfg, idx.(*syntax.Word))
+		w, ok := idx.(*syntax.Word)
+		if !ok {
+			// Keys must be single words; arithmetic expressions such as [1+2] are not supported.
+			return "", false, fmt.Errorf("bad array subscript")
+		}
+		val, err := Literal(cfg, w)
 		if err != nil {
 			return "", false, err
 		}
@@ -532,8 +537,13 @@ func (cfg *Config) assignElem(name string, vr Variable, idx syntax.ArithmExpr, v
 	case Associative:
 		key := "0"
 		if idx != nil {
+			w, ok := idx.(*syntax.Word)
+			if !ok {
+				// Keys must be single words; arithmetic expressions such as [1+2] are not supported.
+				return fmt.Errorf("bad array subscript")
+			}
 			var err error
-			if key, err = Literal(cfg, idx.(*syntax.Word)); err != nil {
+			if key, err = Literal(cfg, w); err != nil {
 				return err
 			}
 		}
